@@ -19,7 +19,7 @@ CACHEMON = {
             'floor': 150, 'req': ['c06_policy_checks_with_choice', 'c06_hit_checks'],
             'anchors': ['lru_compaction', 'safe_lru_compaction', 'lfu_evict', 'mru_evict', 'rr_evict']},
     'C07': {'quick': {'cases': 4000, 'budget_s': 50}, 'thorough': {'cases': 60000, 'budget_s': 600},
-            'floor': 100, 'req': ['c07_drop_hook_evals', 'c07_boundary_checks']},
+            'floor': 100, 'req': ['c07_drop_hook_evals', 'c07_boundary_checks', 'c07_unstorable_retrievability_checks', 'c07_unstorable_purges_that_raised']},
     'C15': {'quick': {'cases': 4000, 'budget_s': 50}, 'thorough': {'cases': 60000, 'budget_s': 600},
             'floor': 150, 'req': ['c15_checks', 'c15_mgmt_checks']},
     'C16': {'quick': {'cases': 2800, 'budget_s': 50}, 'thorough': {'cases': 40000, 'budget_s': 600},
@@ -110,7 +110,7 @@ ARCHMON = {
             'floor': 300, 'req': ['c03_ops', 'c03_content_checks', 'c03_failed_store_checks', 'c03_copy_checks',
                                   'c03_eq_checks', 'c03_isolation_checks', 'c03_cached_sync_checks', 'c03_second_handle_checks']},
     'C08': {'quick': {'cases': 4000, 'budget_s': 45}, 'thorough': {'cases': 100000, 'budget_s': 600},
-            'floor': 300, 'req': ['c08_steps', 'c08_parked_checks', 'c08_toggle_on', 'c08_sync_ops_while_off', 'c08_sync_ops_with_conflicting_values', 'c08_second_handle_checks']},
+            'floor': 300, 'req': ['c08_steps', 'c08_parked_checks', 'c08_toggle_on', 'c08_sync_ops_while_off', 'c08_sync_ops_with_conflicting_values', 'c08_second_handle_checks', 'c08_dumps_with_unencodable_value']},
 }
 
 
